@@ -75,10 +75,15 @@ def gen_spec(rng):
     used_rules = set()
     if rng.random() < 0.1:
         pool = pool + pool[:1]      # now and then a handle in two levels (rejected: Precedences.Verify)
+    made = []
     for _ in range(rng.randint(0, 8)):
         d = gen_directive(rng, names or ["start"], pool, used_rules)
         if d:
             decls.insert(rng.randrange(len(decls) + 1), d)
+            made.append(d)
+    if made and rng.random() < 0.12:
+        # now and then a whole directive written twice (rejected: every handle then sits in two levels; a level is never merged away)
+        decls.insert(rng.randrange(len(decls) + 1), rng.choice(made))
     # every literal/token used in a directive gets used in a rule as well, so that the grammar knows it
     decls.append("zz_all = %s;" % " ".join(S.LITS[:7] + S.TOKS))
     return head + "\n" + "\n".join(decls) + "\n"
